@@ -1,10 +1,12 @@
 import FurikoModel.Driver.HeapD
 import FurikoModel.Driver.CronD
+import FurikoModel.Driver.QueueD
 open Furiko Furiko.Driver
 
 structure DState where
   heap : Heap.PQ := default
   cron : CronDS := {}
+  queue : QueueDS := {}
 
 def step (s : DState) (line : String) : DState × String :=
   let t := toks line
@@ -17,6 +19,9 @@ def step (s : DState) (line : String) : DState × String :=
     else if op.startsWith "cron." then
       let (c, o) := cronStep s.cron t
       ({ s with cron := c }, o)
+    else if op.startsWith "q." then
+      let (c, o) := queueStep s.queue t
+      ({ s with queue := c }, o)
     else (s, "bad-op")
 
 partial def loop (hin : IO.FS.Stream) (hout : IO.FS.Stream) (s : DState) : IO Unit := do
